@@ -409,6 +409,8 @@ func c11MergeValues(a, b []c11KT) []c11KT {
 		}
 	}
 
+	sort.SliceStable(out, func(i, j int) bool { return out[i].K < out[j].K })
+
 	return out
 }
 
@@ -460,7 +462,54 @@ func (c c11Conf) effHeaders() []c11KT {
 		hs = append(hs, c11KT{K: "Accept", T: c11Tpl{{K: "lit", S: "application/json"}}})
 	}
 
+	sort.SliceStable(hs, func(i, j int) bool { return hs[i].K < hs[j].K })
+
 	return hs
+}
+
+// Go maps have no order: the lists that stand for maps are kept sorted by key, and templates are kept in the
+// normal form the model can read back from their text (no empty or adjacent literals)
+func c11NormTpl(t c11Tpl) c11Tpl {
+	var out c11Tpl
+
+	for _, p := range t {
+		if p.K == "lit" {
+			if p.S == "" {
+				continue
+			}
+
+			if n := len(out); n > 0 && out[n-1].K == "lit" {
+				out[n-1].S += p.S
+
+				continue
+			}
+		}
+
+		out = append(out, p)
+	}
+
+	return out
+}
+
+func c11NormKTs(kts []c11KT) []c11KT {
+	out := make([]c11KT, len(kts))
+	for i, kt := range kts {
+		out[i] = c11KT{K: kt.K, T: c11NormTpl(kt.T)}
+	}
+
+	sort.SliceStable(out, func(i, j int) bool { return out[i].K < out[j].K })
+
+	return out
+}
+
+func c11Norm(c *c11Conf) {
+	c.Ep.URL = c11NormTpl(c.Ep.URL)
+	c.Ep.Headers = c11NormKTs(c.Ep.Headers)
+	c.Values = c11NormKTs(c.Values)
+
+	if c.HasPayload {
+		c.Payload = c11NormTpl(c.Payload)
+	}
 }
 
 func (c c11Conf) effMethod() string {
@@ -1068,6 +1117,19 @@ func (env *c11Env) run(c *c11Case) (obs c11Obs, effs []c11Conf, tab *c11Sha) {
 	env.mu.Unlock()
 
 	protos := &config.MechanismPrototypes{}
+
+	for i := range c.Protos {
+		c11Norm(&c.Protos[i])
+	}
+
+	for i := range c.Insts {
+		if o := c.Insts[i].Over; o != nil {
+			o.Values = c11NormKTs(o.Values)
+			if o.HasPayload {
+				o.Payload = c11NormTpl(o.Payload)
+			}
+		}
+	}
 
 	for _, p := range c.Protos {
 		m := env.protoConf(p)
